@@ -1,5 +1,6 @@
 import Driver.Lb
 import Driver.LbSpec
+import Driver.Pollh
 import Driver.Adapter
 import Driver.Closed
 import Driver.Stream
@@ -12,6 +13,7 @@ def main (args : List String) : IO UInt32 := do
   match args with
   | ["lb"] => Driver.Lb.main; return 0
   | ["lbspec", ops, impl] => Driver.LbSpec.main ops impl; return 0
+  | ["pollh", ops, impl] => Driver.Pollh.main ops impl; return 0
   | ["opcache"] => Driver.OpCache.main; return 0
   | ["stream"] => Driver.Stream.main; return 0
   | ["closed"] => Driver.Closed.main; return 0
